@@ -47,19 +47,24 @@ def main():
                 "category": "exploration",
                 "text": LEVEL_TEXT.get(pid, getattr(prop, "level_text", None) or (
                     "Generated-input search (Hypothesis, seeded by VERIF_SEED, sharded over 16 processes) "
-                    "against explicit oracles, sub-checks: %s. It shows the property on every generated "
+                    "against explicit oracles, sub-checks: %s. The thorough tier also drives the same "
+                    "sub-checks with coverage-guided fuzzing (atheris/libFuzzer on pyrex's branch coverage). "
+                    "It shows the property on every generated "
                     "case and reports how many were non-trivial; it cannot show absence of violations."
                     % subs)),
                 "design_ref": "DESIGN.md " + (prop.design_ref or "3/" + pid),
             },
             "level_note": "; ".join(prop.assumptions) or "oracles as described in DESIGN.md",
             "technique": TECH.get(pid, getattr(prop, "technique", None) or
-                                  "property-based testing (Hypothesis) with reference-model / metamorphic oracles"),
+                                  "property-based testing (Hypothesis) with reference-model / metamorphic oracles; "
+                                  "coverage-guided fuzzing (atheris) of the same oracles in the thorough tier"),
         })
     manifest = {
         "version": 1,
-        "setup_cmd": "/venv/bin/python -c 'import hypothesis' 2>/dev/null || /venv/bin/pip install --no-index "
-                     "--find-links /opt/veriftools/wheels hypothesis",
+        "setup_cmd": "(/venv/bin/python -c 'import hypothesis' 2>/dev/null || /venv/bin/pip install --no-index "
+                     "--find-links /opt/veriftools/wheels hypothesis) && "
+                     "(test -d .deps/atheris || /venv/bin/pip install -q --no-index --find-links "
+                     "/opt/veriftools/wheels --target .deps atheris)",
         "hooks": {
             "guard": "BHOKANSONFASIG_PYREX_VERIF",
             "enable": "no hooks: every property is observed through the public API; checks import the "
@@ -74,7 +79,9 @@ def main():
             "path": "pbt/",
             "serves_properties": [c["property_id"] for c in checks],
             "kind_free_text": "Hypothesis 6.168 property-based tests: JSON-serialisable generated cases, "
-                              "explicit oracles, shrinking to replay files, sharded with multiprocessing",
+                              "explicit oracles, shrinking to replay files, sharded with multiprocessing; the "
+                              "thorough tier adds a coverage-guided phase (atheris 3.1 / libFuzzer driving the "
+                              "same tests through Hypothesis fuzz_one_input with pyrex instrumented)",
         }],
         "checks": checks,
         "notes": "Runner: pbt/run.py <ID> --tier quick|thorough [--replay file]. Exit 0 held / 1 VIOLATION / "
